@@ -124,6 +124,13 @@ def packings(reqs, tier):
         for c in cutset:
             if 0 < c < len(whole):
                 out.append(('cut@%+d' % (c - b), [whole[:c], whole[c:]], False))
+        # a request that arrives in two segments with the RESPONSE to the request before it completing in between
+        # (the client waits after each segment): second request straddling response 1, third straddling response 2
+        h = len(reqs[1]) // 2
+        out.append(('straddle2', [reqs[0] + reqs[1][:h], reqs[1][h:]] + list(reqs[2:]), True))
+        if len(reqs) >= 3:
+            h = len(reqs[2]) // 2
+            out.append(('straddle3', [reqs[0], reqs[1] + reqs[2][:h], reqs[2][h:]], True))
     else:
         r = reqs[0]
         out.append(('split_mid', [r[:len(r) // 2], r[len(r) // 2:]], False))
@@ -162,7 +169,7 @@ def scenarios(tier):
                     '%s/%s%s/%s' % (role, ''.join(seq), '' if conn == 'none' else '+' + conn, cls), fa, flags_opts=fo, mode='local',
                     clients=[dict(script=script)], origins=origins, dns=DNS, kinds='AR' if tier == 'quick' else 'ARE', horizon=600,
                     features={'role': role, 'sequence': ''.join(seq), 'n_requests': len(seq),
-                              'packing': 'cut' if cls.startswith('cut') else cls,
+                              'packing': 'cut' if cls.startswith('cut') else ('straddle' if cls.startswith('straddle') else cls),
                               'origins_differ': len(set(origs)) > 1,
                               'has_body': any(s in 'PC' for s in seq), 'connection_header': conn,
                               '_exps': exps}))
@@ -185,6 +192,24 @@ def scenarios(tier):
                                 features={'role': role, 'sequence': 'Gx%d' % n, 'n_requests': n, 'packing': cls,
                                           'origins_differ': False, 'has_body': False, 'connection_header': 'none',
                                           '_exps': [b[1] for b in built], '_bound': 0}))
+    # responses to pipelined requests need not arrive one per segment: both in ONE upstream segment, and in two
+    # segments that are cut a few bytes before / after the end of the first response
+    for role in ('forward', 'reverse'):
+        for seq in (('G', 'G'), ('G', 'P'), ('P', 'G', 'G')):
+            for co in (0, 3, -2):
+                if role == 'forward':
+                    fa, fo = ['--threadless'], {}
+                    origins = {ADDR['a']: (lambda co=co: HttpOrigin([], respond=stamp_response('a'), coalesce=co))}
+                else:
+                    fa, fo = ['--threadless', '--enable-reverse-proxy'], {'plugins': [rev_plugin()]}
+                    origins = {ADDR['u1']: (lambda co=co: HttpOrigin([], respond=stamp_response('u1'), coalesce=co))}
+                built = [mkreq(role, sy, i) for i, sy in enumerate(seq)]
+                out.append(Scenario('%s/%s/all_in_one/responses-coalesced%+d' % (role, ''.join(seq), co), fa, flags_opts=fo, mode='local',
+                                    clients=[dict(script=[('send', b''.join(b[0] for b in built)), ('wait_idle',), ('close',)])],
+                                    origins=origins, dns=DNS, kinds='AR' if tier == 'quick' else 'ARE', horizon=600,
+                                    features={'role': role, 'sequence': ''.join(seq), 'n_requests': len(seq), 'packing': 'all_in_one',
+                                              'origins_differ': False, 'has_body': 'P' in seq, 'connection_header': 'none',
+                                              'responses_coalesced': True, '_exps': [b[1] for b in built]}))
     # two LARGE exchanges pipelined towards an ordinary sequential origin (it writes the whole response to request 1
     # before it reads request 2) over 4 KiB kernel buffers: the proxy must keep relaying response 1 while request 2
     # is still queued for the origin -- or neither side can ever move again
